@@ -82,6 +82,7 @@ func init() {
 	Properties["C01"] = &PropertySpec{
 		Modules: bt,
 		Rules: []Rule{
+			Only(R53(), `^a/`),
 			R52(),
 			R45(),
 			R06(),
@@ -116,6 +117,7 @@ func init() {
 	Properties["C03"] = &PropertySpec{
 		Modules: bt,
 		Rules: []Rule{
+			Only(R53(), `^b/`),
 			Only(R43(), fns("(*server).ReadRows")),
 			Only(R09(), `^I1/`, `^I2/`, `^I5/`),
 			R08(Only8("ReadRows")),
@@ -140,6 +142,7 @@ func init() {
 	Properties["C05"] = &PropertySpec{
 		Modules: bt,
 		Rules: []Rule{
+			R53(),
 			R50(),
 			R18(),
 			Only(R13(2, core.PkgBttest), fns("filterRow", "filterCells", "includeCell", "modifyCell")),
@@ -338,6 +341,7 @@ func init() {
 	Properties["C18"] = &PropertySpec{
 		Modules: bt,
 		Rules: []Rule{
+			Only(R53(), `^b/`),
 			Only(R01(nil), `/table\.rows/`),
 			Only(R01(nil), fns(scanFns...), fns("scrubRow")),
 			Only(R04(), fns(scanFns...)),
